@@ -103,3 +103,16 @@ package dao
 //@ func (*Simple).GetROCache
 //@ assumed
 //@ pure
+
+// C07: putting a transaction on chain (re)writes the conflict record of every hash it names
+// (unless a block is stored under that hash) before the per-signer records: a signer record is
+// never written in an iteration that did not write the stub itself after looking the hash up, so
+// the stub always carries the index of the latest conflicting transaction.
+//@ prop C07
+//@ func (*Simple).StoreAsTransaction
+//@ may-panic
+//@ opt frame off
+//@ requires dao != nil && tx != nil && dao.Store != nil && dao.Store.ps != nil
+//@ opt stable dao.Store, dao.Store.ps
+//@ opt opaque-callees (*BinWriter).
+//@ call Store).Put requires[stub] len(arg1) > len(key) ==> lastseq(Put) > lastseq(Get)
